@@ -507,3 +507,55 @@ def mode_selection(u: Unit):
                         ok = ok and isinstance(cols, VNone)
                     u.oblige(p, f"mode.selection.custom_file_and_columns[{tag}]", bool(ok), {}, MODE_REPLAY)
             u.cover(f"mode.selection.cover[{tag}]", ps, lambda p: True)
+
+
+# ---- custom mode: the table the runs are taken from ----------------------------------------------------------------------------------
+CUSTOM_REPLAY = lambda w: {"code": """
+import tempfile, os
+from pyxel.observation import ParameterValues
+from pyxel.observation.misc import CustomMode
+d = tempfile.mkdtemp(); fn = os.path.join(d, 'table.txt')
+rows = [(10, 150), (20, 160), (10, 150), (40, 170), (20, 160)]
+open(fn, 'w').write('\\n'.join(' '.join(str(x) for x in r) for r in rows) + '\\n')
+ps = [ParameterValues(key='a.b.level', values='_'), ParameterValues(key='a.b.off', values=[1, 2], enabled=False), ParameterValues(key='a.b.temperature', values='_')]
+mode = CustomMode.build(ps, custom_file=fn, custom_columns=slice(0, 1))      # .loc label slice: both ends included
+runs = [(e.index, e.run_index, dict(e.parameters)) for e in mode.get_parameters_item(processor=None)]
+want = [{'a.b.level': r[0], 'a.b.temperature': r[1]} for r in rows]
+VIOLATED = len(runs) != len(rows) or [r[2] for r in runs] != want or [r[1] for r in runs] != list(range(len(rows)))
+DETAIL = f'table of {len(rows)} rows (two of them repeated): {len(runs)} runs {[tuple(r[2].values()) for r in runs]}'
+""", "expect": "custom mode makes one run per table row, repeated rows included, in table order"}
+
+
+@unit("C05", "custom.table")
+def custom_table(u: Unit):
+    """CustomMode.build: the table the runs are taken from is the loaded file restricted to the requested columns — every row of it (no
+    row dropped, none reordered): custom_data == load_table(file).loc[:, columns]. The loader and pandas are the boundary; another
+    expression over the same table is not recognised -> undecided, decided by the native stand-in (a table with repeated rows)."""
+    from .calibreport import term, judge
+    fi = u.fn(f"{MISC}::CustomMode.build")
+    cmc = u.cls(f"{MISC}::CustomMode")
+    cfg = Cfg("real")
+    boundary.install(cfg)
+    cfg.lib_overrides["pyxel.load_table"] = lambda ex, f, args, kwargs, fr: VOpaque("xr", None, {"label": "load_table()", "args": list(args)})
+    cfg.contracts["pyxel/inputs/loader.py::load_table"] = Contract("pyxel/inputs/loader.py::load_table", lambda ex, args, kwargs, fr: VOpaque("xr", None, {"label": "load_table()", "args": list(args[:1])}), "C20: the table of the file")
+    cfg.lib_overrides[("len", "xr")] = lambda ex, v, fr: VInt(z3.Int("n_columns"))
+
+    def setup(ex):
+        pvs, vals, ens = mk_params(ex, u, (1, 1), multi=[lambda ex: VStr("_"), lambda ex: VStr("_")])
+        for e in ens:
+            ex.st.assume(e)
+        ex.st.assume(z3.Int("n_columns") == 2)
+        ex.pvs = ex.st.alloc(HList(pvs))
+        return [VClass(cmc), ex.pvs], {"custom_file": VStr("table.txt"), "custom_columns": VOpaque("xr", None, {"label": "columns"})}
+    ps = u.paths(fi, setup, cfg, label="CustomMode.build")
+    for p in ps:
+        if p.kind != "return":
+            continue
+        obj = p.st.cell(p.value).fields if isinstance(p.value, VRef) else {}
+        got = term(p.ex, obj.get("custom_data"))
+        judge(u, p, "custom.table.is_the_loaded_table_restricted_to_the_columns", got, "load_table('table.txt').loc[[slice(None, None, None), columns]]", CUSTOM_REPLAY)
+        u.oblige(p, "custom.table.parameters_kept", obj.get("parameters") is p.ex.pvs, {}, CUSTOM_REPLAY)
+    u.cover("custom.table.cover", ps, lambda p: p.kind == "return")
+
+
+STANDIN[r"custom\\.table"] = CUSTOM_REPLAY
